@@ -52,7 +52,7 @@ def templates(draw):
             if style == "conv":
                 name = b + SEP + kname
             elif style == "file":
-                name = b + SEP + draw(st.sampled_from(["file", "movie_file", "cache_" + kname]))
+                name = b + SEP + draw(st.sampled_from(["file", "movie_file", "cache_" + kname, "cache" + SEP + kname]))
             elif style == "bare":
                 name = b
             else:
@@ -62,7 +62,7 @@ def templates(draw):
             used_names.add(name)
             used_templates.add(tpl)
             entries.append((name, tpl))
-            if SEP in name and draw(st.integers(0, 2)) > 0:
+            if draw(st.integers(0, 2)) > 0:   # also bare names (no separator) and names with two separators
                 to_extrapolate.append(name)
         # leaf variants sharing all but the last spec (like file / movie_file / cache_file)
         if draw(st.booleans()):
@@ -383,7 +383,7 @@ def get_data_json_path(sid_path: Path) -> Path:
     return sid_path.with_name('.' + sid_path.name).with_suffix(path_data_suffix)
 ''' % {
         "path_configs": {cfg: ("spil_fs_conf" if i == 0 else f"spil_fs_{cfg}_conf") for i, cfg in enumerate(spec["path_configs"])},
-        "default": spec["path_configs"][0],
+        "default": spec.get("default_path_config") or spec["path_configs"][0],
         "pk": pk, "tk": tk, "sk": sk, "pb": pb, "T": T,
         "projects": list(spec["projects"]),
         "codes": [b["code"] for b in spec["basetypes"] + spec.get("flat_basetypes", [])],
@@ -550,6 +550,10 @@ def specs(draw):
     if chance(20):
         spec["path_configs"] = ["local", "server", "cloud"]
         dims.append("third-path-config")
+    # 8b. the default path configuration need not be the first one listed
+    if chance(30):
+        spec["default_path_config"] = draw(st.sampled_from(spec["path_configs"]))
+        dims.append("default-path-config")
     # level keys must not clash with the (possibly renamed) reserved keys
     for b in spec["basetypes"]:
         for lv in b["levels"]:
@@ -662,7 +666,7 @@ def canonical_specs():
                                "levels": [{"key": "dept", "kind": "closed", "values": ["lgt", "cmp"], "constants": True}, {"key": "item", "kind": "free"}],
                                "joined": [], "side_branch": False})
     variant("third-basetype", third)
-    variant("third-path-config", lambda s: s.update({"path_configs": ["local", "server", "cloud"]}))
+    variant("third-path-config", lambda s: s.update({"path_configs": ["local", "server", "cloud"], "default_path_config": "cloud"}))
 
     def side(s):
         s["basetypes"][1]["side_branch"] = False
